@@ -831,16 +831,18 @@ impl Part for CrashEnum {
                 if ctx.tier == Tier::Thorough || (r >> 8) % 4 == 3 {
                     modes.push(Mode::Enospc);
                 }
-                if ctx.tier == Tier::Thorough || (r >> 24) % 4 == 0 {
+                // the four expensive modes: a quarter of the points each (quick), half (thorough)
+                let thorough = ctx.tier == Tier::Thorough;
+                if (r >> 24) % 4 == 0 || (thorough && (r >> 24) % 4 == 1) {
                     modes.push(Mode::A2);
                 }
-                if ctx.tier == Tier::Thorough || (r >> 24) % 4 == 2 {
+                if (r >> 24) % 4 == 2 || (thorough && (r >> 24) % 4 == 3) {
                     modes.push(Mode::Lose2);
                 }
-                if ctx.tier == Tier::Thorough || (r >> 16) % 4 == 1 {
+                if (r >> 16) % 4 == 1 || (thorough && (r >> 16) % 4 == 0) {
                     modes.push(Mode::EioGo);
                 }
-                if ctx.tier == Tier::Thorough || (r >> 16) % 4 == 3 {
+                if (r >> 16) % 4 == 3 || (thorough && (r >> 16) % 4 == 2) {
                     modes.push(Mode::EnospcGo);
                 }
                 for mode in modes {
